@@ -219,12 +219,48 @@ func judge(h *history) ([]finding, judgeStats) {
 		earliest int // position of the earliest feasible delivery, MaxInt if none
 		latest   int // position of the latest feasible delivery, MaxInt if possibly undelivered
 	}
+	// Per item: call and return ticks of the Inserts that reported "new".
+	tCall := make([][]int64, n)
+	tRet := make([][]int64, n)
+	for _, in := range trues {
+		tCall[in.Item] = append(tCall[in.Item], in.Call)
+		tRet[in.Item] = append(tRet[in.Item], in.Ret)
+	}
+	for i := 0; i < n; i++ {
+		sort.Slice(tCall[i], func(a, b int) bool { return tCall[i][a] < tCall[i][b] })
+		sort.Slice(tRet[i], func(a, b int) bool { return tRet[i][a] < tRet[i][b] })
+	}
 	ti := make([]tinfo, len(trues))
 	for k, in := range trues {
 		d := dl[in.Item]
-		kmin := sort.Search(len(d), func(j int) bool { return d[j].ret > in.Call })      // 0-based index of first delivery returning after the call
-		kmax := sort.Search(len(d), func(j int) bool { return d[j].call >= in.Ret }) // deliveries called before the insert returned; episode index <= that count (0-based)
+		// The Insert is the e-th "new" Insert of its item in linearization
+		// order, and its episode ends with the e-th delivery of the item
+		// (0-based e). Necessary conditions from real-time precedence:
+		//   deliveries that returned before it was called   <= e <= deliveries called before it returned
+		//   "new" Inserts that returned before it was called <= e <= "new" Inserts called before it returned, minus itself
+		dLo := sort.Search(len(d), func(j int) bool { return d[j].ret > in.Call })
+		dHi := sort.Search(len(d), func(j int) bool { return d[j].call >= in.Ret })
+		rLo := sort.Search(len(tRet[in.Item]), func(j int) bool { return tRet[in.Item][j] >= in.Call })
+		rHi := sort.Search(len(tCall[in.Item]), func(j int) bool { return tCall[in.Item][j] >= in.Ret }) - 1
+		if rHi < dLo {
+			add("new-flag", "item %d: %d deliveries of it had returned before Insert [call %d, ret %d, new=true] was called, but at most %d other Inserts of it that reported 'new' can precede this one: a delivery without a first insertion", in.Item, dLo, in.Call, in.Ret, rHi)
+		}
+		if rLo > dHi {
+			add("new-flag", "item %d: Insert [call %d, ret %d] reported 'new' although %d earlier Inserts of it had already returned 'new' and at most %d deliveries of it can have happened before this Insert returned: the item was still pending", in.Item, in.Call, in.Ret, rLo, dHi)
+		}
+		kmin, kmax := dLo, dHi
+		if rLo > kmin {
+			kmin = rLo
+		}
+		if rHi < kmax {
+			kmax = rHi
+		}
 		t := tinfo{in: in, earliest: math.MaxInt, latest: math.MaxInt}
+		if kmin > kmax {
+			ti[k] = t // inconsistent (reported above): not used for ordering
+			ti[k].earliest = -1
+			continue
+		}
 		if kmin < len(d) {
 			t.earliest = d[kmin].pos
 		}
